@@ -10,7 +10,7 @@ CONSTANTS
   MaxUpdate = 2
   ClearOnSet = TRUE
   ClearOnDelete = TRUE
-  Depth = 5
+  Depth = 4
 CONSTRAINT Bound
 VIEW View
 INVARIANT WellFormedMaps
